@@ -110,7 +110,7 @@ def main() -> int:
                         if r["exit"] != 0:
                             bad += 1
                             print(f"ALARM benign/{n}: {p} exit {r['exit']} {r['fired']}")
-            print(f"{kind}: {len(summary)} experiments, {len(props) * len(summary)} check runs")
+            print(f"{kind}: {len(summary)} experiments, {sum(len(r) for r in summary.values())} check runs")
             if args.write and not args.props and not args.own:
                 compact = {n: {p: r for p, r in res.items() if r["exit"] != 0} for n, res in summary.items()}
                 json.dump(compact, open(os.path.join(VERIF, kind, "SUMMARY.json"), "w"), indent=1, sort_keys=True)
